@@ -648,20 +648,23 @@ class Flatten(EnvironmentFilter):
 
         has_context = first and 'context' in first
         has_actions = first and 'actions' in first
+        has_action  = first and 'action'  in first
 
         if not interactions:
             return
 
-        if not has_context and not has_actions:
+        if not has_context and not has_actions and not has_action:
             yield from interactions
             return
 
-        I1,I2,I3 = tee(interactions,3)
+        I1,I2,I3,I4 = tee(interactions,4)
 
         interactions = I1
 
         if has_context: flat_context_iter = self._flattener.filter(i['context'] for i in I2                      )
         if has_actions: flat_actions_iter = self._flattener.filter(a            for i in I3 for a in i['actions'])
+        if has_action : flat_action_iter  = self._flattener.filter(i['action']  for i in I4                      )
+        del I2,I3,I4
 
         targets = []
         if callable(first.get('rewards'))  : targets.append('rewards')
@@ -679,6 +682,9 @@ class Flatten(EnvironmentFilter):
                 if targets and new['actions'] != old['actions']:
                     for target in targets:
                         new[target] = DiscreteReward(new['actions'],list(map(old[target],old['actions'])))
+
+            if has_action:
+                new['action'] = next(flat_action_iter)
 
             yield new
 
